@@ -29,12 +29,14 @@ R5  the cache key under which a loaded trajectory is stored is the requested
 from __future__ import annotations
 
 import ast
+import copy
 
-from ..astutil import (ancestors, call_name, calls_in, guards_of, kwarg, names_in, norm,
-                       single_def_value, stmt_of, stores_to, walk_no_nested)
+from ..algebra import AlgebraError, normal_form
+from ..astutil import (ancestors, arg_or_kw, assigned_names, call_name, calls_in, conjuncts, eval_pred, guards_of,
+                       kwarg, names_in, norm, single_def_value, stmt_of, stores_to, walk_no_nested)
 from ..cfg import CFG
 from ..loader import dotted_name
-from ..resolve import closure, resolve_class_call
+from ..resolve import closure, resolve_call, resolve_class_call
 
 STORE = 'trajectories/store.py'
 
@@ -379,3 +381,682 @@ def _in_reraising_handler(stmt):
         if isinstance(a, (ast.FunctionDef, ast.AsyncFunctionDef)):
             return False
     return False
+
+
+# ======================================================================================================
+# Symbolic path enumeration (shared by C07 and C09; lives here because both modules belong to one owner)
+# ======================================================================================================
+#
+# `Sym(prog, fi).run(target)` walks every path through a function *structurally* (if / guard clause / early return /
+# conditional expression / tuple packing and unpacking / walrus / private helpers of the same module, which are
+# entered and summarised per return path) and keeps, per path,
+#   env    local name (and `self.attr` written on the path) -> expression over the function's inputs,
+#   facts  the branch conditions the path took, in a canonical spelling (`not`, `!=`, `is not`, `>=`, `>`, `<=`
+#          folded into `==`, `is`, `<` plus a polarity).
+# A rule then asks *which value reaches which use under which conditions* instead of looking for a statement shape.
+# Loop bodies are walked once from a state in which everything the loop assigns is unknown; a statement that may
+# change heap state (store, mutating or unknown call) forgets the facts and values that read that state.
+
+_PURE_FUNCS = {'len', 'set', 'list', 'tuple', 'dict', 'sorted', 'frozenset', 'Path', 'getattr', 'isinstance', 'int',
+               'float', 'str', 'abs', 'min', 'max', 'sum', 'range', 'enumerate', 'zip', 'bool', 'type', 'hasattr',
+               'reversed', 'round', 'any', 'all', 'repr', 'id', 'slice', 'iter', 'next', 'hash', 'callable',
+               'issubclass', 'divmod', 'ord', 'chr'}
+_PURE_ROOTS = {'bisect', 'math', 'np', 'numpy', 'itertools', 'operator', 'os.path', 'functools'}
+_PURE_METHODS = {'keys', 'values', 'items', 'get', 'copy', 'index', 'count', 'lower', 'upper', 'strip', 'split',
+                 'startswith', 'endswith', 'format', 'join', 'bisect_left', 'bisect_right', 'bisect', 'accumulate'}
+
+
+class SymUndecided(Exception):
+    pass
+
+
+def _base_id(name: str) -> str:
+    return name.split('@')[0]
+
+
+def chain_root(e: ast.AST) -> ast.Name | None:
+    while isinstance(e, (ast.Attribute, ast.Subscript, ast.Starred)):
+        e = e.value
+    return e if isinstance(e, ast.Name) else None
+
+
+def mentions_heap(e: ast.AST, root: str) -> bool:
+    """does e read heap state reachable from the variable `root` (attribute / element / call argument / container
+    membership)?  A bare use of the variable itself is not a heap read."""
+    for n in ast.walk(e):
+        if isinstance(n, (ast.Attribute, ast.Subscript)):
+            r = chain_root(n)
+            if r is not None and _base_id(r.id) == root:
+                return True
+        elif isinstance(n, ast.Call):
+            if any(isinstance(x, ast.Name) and _base_id(x.id) == root for a in list(n.args) + [k.value for k in n.keywords]
+                   for x in ast.walk(a)):
+                return True
+        elif isinstance(n, ast.Compare) and any(isinstance(o, (ast.In, ast.NotIn)) for o in n.ops):
+            if any(isinstance(x, ast.Name) and _base_id(x.id) == root for c in n.comparators for x in ast.walk(c)):
+                return True
+    return False
+
+
+def canon_fact(e: ast.expr, pol: bool = True) -> tuple[str, bool, ast.expr]:
+    """canonical (text, polarity, expr) of the fact `e has truth value pol`"""
+    while isinstance(e, ast.UnaryOp) and isinstance(e.op, ast.Not):
+        e, pol = e.operand, not pol
+    if isinstance(e, ast.Compare) and len(e.ops) == 1:
+        op, a, b = e.ops[0], e.left, e.comparators[0]
+        new = None
+        if isinstance(op, ast.IsNot):
+            new, pol = (ast.Is(), a, b), not pol
+        elif isinstance(op, ast.NotEq):
+            new, pol = (ast.Eq(), a, b), not pol
+        elif isinstance(op, ast.NotIn):
+            new, pol = (ast.In(), a, b), not pol
+        elif isinstance(op, ast.GtE):
+            new, pol = (ast.Lt(), a, b), not pol
+        elif isinstance(op, ast.Gt):
+            new = (ast.Lt(), b, a)
+        elif isinstance(op, ast.LtE):
+            new, pol = (ast.Lt(), b, a), not pol
+        if new is not None:
+            op, a, b = new
+        if isinstance(op, (ast.Is, ast.Eq)):
+            # symmetric: constants to the right, otherwise by text
+            ka, kb = (isinstance(a, ast.Constant), norm(a)), (isinstance(b, ast.Constant), norm(b))
+            if ka > kb:
+                a, b = b, a
+        e = ast.Compare(left=a, ops=[op], comparators=[b])
+    return norm(e), pol, e
+
+
+def _noneness(e: ast.expr):
+    """True: e is None; False: e is certainly not None; None: unknown"""
+    if isinstance(e, ast.Constant):
+        return e.value is None
+    if isinstance(e, (ast.Tuple, ast.List, ast.Dict, ast.Set, ast.ListComp, ast.DictComp, ast.SetComp, ast.GeneratorExp,
+                      ast.JoinedStr, ast.Lambda, ast.Compare)):
+        return False
+    if isinstance(e, ast.BinOp):
+        return False
+    return None
+
+
+class SymState:
+    __slots__ = ('env', 'facts', 'epoch', 'clob')
+
+    def __init__(self, env=None, facts=None, epoch=None, clob=None):
+        self.env: dict[str, ast.expr] = dict(env or {})
+        self.facts: list[tuple[str, bool, ast.expr]] = list(facts or [])
+        self.epoch: dict[str, int] = dict(epoch or {})
+        self.clob: set[str] = set(clob or ())
+
+    def fork(self) -> 'SymState':
+        return SymState(self.env, self.facts, self.epoch, self.clob)
+
+    def fact(self, text: str):
+        """polarity of the canonical fact `text` on this path, or None"""
+        for k, p, _ in self.facts:
+            if k == text:
+                return p
+        return None
+
+    def holds(self, e: ast.expr | str, pol: bool = True) -> bool:
+        if isinstance(e, str):
+            e = ast.parse(e, mode='eval').body
+        k, p, _ = canon_fact(e, pol)
+        return self.fact(k) == p
+
+
+class SymHit:
+    def __init__(self, node, state, sym):
+        self.node, self.state, self.sym = node, state, sym
+
+    def ev(self, e: ast.expr) -> ast.expr:
+        return self.sym.ev(e, self.state.fork())
+
+
+class Sym:
+    def __init__(self, prog, fi, depth: int = 0, parent: 'Sym | None' = None, cap: int = 600):
+        self.prog, self.fi, self.depth, self.cap = prog, fi, depth, cap
+        self.hits: list[SymHit] = parent.hits if parent else []
+        self.raises: list = parent.raises if parent else []       # (state, exc expr | None, stmt, sym)
+        self.returns: list[tuple[SymState, ast.expr | None, ast.stmt | None]] = []
+        self.target = parent.target if parent else None
+        self.recv = None
+        if fi.cls is not None and fi.params and not any(d.split('.')[-1] == 'staticmethod' for d in fi.decorators()):
+            self.recv = fi.params[0]
+        self._tag = 0
+
+    # ---- driver ----------------------------------------------------------------------------------------
+    def run(self, target=None, init: SymState | None = None) -> 'Sym':
+        if target is not None:
+            self.target = target
+        outs = self.block(self.fi.node.body, [init or SymState()])
+        for s in outs:
+            self.returns.append((s, ast.Constant(value=None), None))
+        return self
+
+    def block(self, stmts, states):
+        for s in stmts:
+            nxt = []
+            for st in states:
+                nxt += self.stmt(s, st)
+            states = nxt
+            if len(states) > self.cap:
+                raise SymUndecided(f'{self.fi.qualname}: more than {self.cap} paths')
+            if not states:
+                break
+        return states
+
+    # ---- expressions -----------------------------------------------------------------------------------
+    def ev(self, e: ast.expr, st: SymState) -> ast.expr:
+        sym = self
+
+        class T(ast.NodeTransformer):
+            def __init__(self):
+                self.bound: list[set[str]] = []
+
+            def is_bound(self, name):
+                return any(name in b for b in self.bound)
+
+            def visit_Name(self, n):
+                if isinstance(n.ctx, ast.Load) and not self.is_bound(n.id) and n.id in st.env:
+                    return copy.deepcopy(st.env[n.id])
+                return n
+
+            def root(self, n: ast.Name):
+                if self.is_bound(n.id):
+                    return n
+                if n.id in st.env:
+                    return copy.deepcopy(st.env[n.id])
+                ep = st.epoch.get(n.id, 0)
+                return ast.Name(id=f'{n.id}@e{ep}', ctx=ast.Load()) if ep else n
+
+            def visit_Attribute(self, n):
+                if isinstance(n.value, ast.Name):
+                    if sym.recv is not None and n.value.id == sym.recv and not self.is_bound(sym.recv):
+                        key = f'{sym.recv}.{n.attr}'
+                        if key in st.env and isinstance(n.ctx, ast.Load):
+                            return copy.deepcopy(st.env[key])
+                    n.value = self.root(n.value)
+                    return n
+                n.value = self.visit(n.value)
+                return n
+
+            def visit_Subscript(self, n):
+                n.value = self.root(n.value) if isinstance(n.value, ast.Name) else self.visit(n.value)
+                n.slice = self.visit(n.slice)
+                if isinstance(n.value, ast.Tuple) and isinstance(n.slice, ast.Constant) and isinstance(n.slice.value, int) \
+                        and -len(n.value.elts) <= n.slice.value < len(n.value.elts) \
+                        and not any(isinstance(x, ast.Starred) for x in n.value.elts):
+                    return n.value.elts[n.slice.value]
+                return n
+
+            def visit_NamedExpr(self, n):
+                v = self.visit(n.value)
+                st.env[n.target.id] = v
+                return copy.deepcopy(v)
+
+            def visit_IfExp(self, n):
+                n.test = self.visit(n.test)
+                t = sym.truth(n.test, st)
+                if t is True:
+                    return self.visit(n.body)
+                if t is False:
+                    return self.visit(n.orelse)
+                n.body, n.orelse = self.visit(n.body), self.visit(n.orelse)
+                return n
+
+            def _comp(self, n):
+                names = set()
+                for g in n.generators:
+                    names |= set(assigned_names(g.target))
+                # the first iterable is evaluated outside the comprehension's scope
+                n.generators[0].iter = self.visit(n.generators[0].iter)
+                self.bound.append(names)
+                for i, g in enumerate(n.generators):
+                    if i:
+                        g.iter = self.visit(g.iter)
+                    g.ifs = [self.visit(x) for x in g.ifs]
+                if isinstance(n, ast.DictComp):
+                    n.key, n.value = self.visit(n.key), self.visit(n.value)
+                else:
+                    n.elt = self.visit(n.elt)
+                self.bound.pop()
+                return n
+
+            visit_ListComp = visit_SetComp = visit_GeneratorExp = visit_DictComp = _comp
+
+            def visit_Lambda(self, n):
+                a = n.args
+                self.bound.append({x.arg for x in a.posonlyargs + a.args + a.kwonlyargs}
+                                  | ({a.vararg.arg} if a.vararg else set()) | ({a.kwarg.arg} if a.kwarg else set()))
+                n.body = self.visit(n.body)
+                self.bound.pop()
+                return n
+
+        return T().visit(copy.deepcopy(e))
+
+    def truth(self, e: ast.expr, st: SymState):
+        """static truth value of an (already substituted) test on this path: True / False / None"""
+        k, pol, ce = canon_fact(e, True)
+        p = st.fact(k)
+        if p is not None:
+            return p == pol
+        if isinstance(e, ast.Constant):
+            return bool(e.value)
+        if isinstance(e, (ast.Tuple, ast.List, ast.Set)):
+            return bool(e.elts)
+        if isinstance(e, ast.Dict):
+            return bool(e.keys)
+        if isinstance(e, ast.UnaryOp) and isinstance(e.op, ast.Not):
+            t = self.truth(e.operand, st)
+            return None if t is None else not t
+        if isinstance(e, ast.BoolOp):
+            ts = [self.truth(v, st) for v in e.values]
+            if isinstance(e.op, ast.And):
+                return False if any(t is False for t in ts) else (True if all(t is True for t in ts) else None)
+            return True if any(t is True for t in ts) else (False if all(t is False for t in ts) else None)
+        if isinstance(ce, ast.Compare) and isinstance(ce.ops[0], (ast.Is, ast.Eq)):
+            a, b = ce.left, ce.comparators[0]
+            if isinstance(b, ast.Constant) and b.value is None:
+                nn = _noneness(a)
+                if nn is not None:
+                    return nn == pol
+            if isinstance(a, ast.Constant) and isinstance(b, ast.Constant) and isinstance(ce.ops[0], ast.Eq):
+                return (a.value == b.value) == pol
+            if norm(a) == norm(b) and not any(isinstance(x, ast.Call) for x in ast.walk(a)):
+                return pol
+        return None
+
+    def assume(self, st: SymState, test: ast.expr, pol: bool) -> bool:
+        """add `test is pol` to the path; False when the path is infeasible"""
+        for a, p in conjuncts(test, pol):
+            t = self.truth(a, st)
+            if t is not None:
+                if t != p:
+                    return False
+                continue
+            while isinstance(a, ast.UnaryOp) and isinstance(a.op, ast.Not):
+                a, p = a.operand, not p
+            if isinstance(a, ast.BoolOp) and (isinstance(a.op, ast.Or) == p):
+                # a disjunction known true / a conjunction known false: drop the members already decided
+                rem = [v for v in a.values if self.truth(v, st) is None]
+                if len(rem) == 1:
+                    if not self.assume(st, rem[0], p):
+                        return False
+                    continue
+            st.facts.append(canon_fact(a, p))
+        return True
+
+    # ---- heap -----------------------------------------------------------------------------------------
+    def _fresh(self, name: str, where) -> ast.Name:
+        self._tag += 1
+        return ast.Name(id=f'{name}@{getattr(where, "lineno", 0)}', ctx=ast.Load())
+
+    def clobber(self, st: SymState, roots, where=None):
+        """heap state reachable from the variables `roots` may have changed"""
+        roots = {_base_id(r) for r in roots}
+        if not roots:
+            return
+        st.facts = [f for f in st.facts if not any(mentions_heap(f[2], r) for r in roots)]
+        for k, v in list(st.env.items()):
+            if any(mentions_heap(v, r) for r in roots) or ('.' in k and k.split('.')[0] in roots):
+                st.env[k] = self._fresh(k, where)
+        for r in roots:
+            st.epoch[r] = st.epoch.get(r, 0) + 1
+        st.clob |= roots
+
+    def clobber_text(self, st: SymState, pred):
+        st.facts = [f for f in st.facts if not any(pred(x) for x in ast.walk(f[2]))]
+        for k, v in list(st.env.items()):
+            if any(pred(x) for x in ast.walk(v)):
+                st.env[k] = self._fresh(k, v)
+
+    def _pure_call(self, c: ast.Call) -> bool:
+        name = call_name(c)
+        if name in _PURE_FUNCS:
+            return True
+        if any(name == r or name.startswith(r + '.') for r in _PURE_ROOTS):
+            return True
+        if isinstance(c.func, ast.Attribute) and c.func.attr in _PURE_METHODS:
+            return True
+        return False
+
+    def effects(self, e: ast.AST | None, st: SymState, skip: ast.AST | None = None):
+        """forget what the impure calls inside e may change"""
+        if e is None:
+            return
+        for c in [x for x in walk_no_nested(e, include_lambda=False) if isinstance(x, ast.Call)]:
+            if c is skip or self._pure_call(c):
+                continue
+            parts = list(c.args) + [k.value for k in c.keywords]
+            if isinstance(c.func, ast.Attribute):
+                parts.append(c.func.value)
+            roots = set()
+            for p in parts:
+                try:
+                    v = self.ev(p, st.fork())
+                except RecursionError:      # pragma: no cover
+                    v = p
+                roots |= {x.id for x in ast.walk(v) if isinstance(x, ast.Name)}
+            self.clobber(st, roots, c)
+
+    # ---- calls of helpers of the same module ------------------------------------------------------------
+    def _summarisable(self, c: ast.Call):
+        if self.depth >= 2:
+            return None
+        try:
+            callee = resolve_call(self.prog, self.fi, c)
+        except Exception:
+            return None
+        if callee is None or callee.module is not self.fi.module or callee == self.fi:
+            return None
+        if any(isinstance(x, (ast.Yield, ast.YieldFrom, ast.Await)) for x in walk_no_nested(callee.node)):
+            return None
+        decs = [d.split('.')[-1].split('(')[0] for d in callee.decorators()]
+        if any(d not in ('staticmethod', 'classmethod') for d in decs):
+            return None
+        if any(isinstance(a, ast.Starred) for a in c.args) or any(k.arg is None for k in c.keywords):
+            return None
+        return callee
+
+    def _call(self, callee, c: ast.Call, st: SymState):
+        a = callee.node.args
+        if a.vararg or a.kwarg:
+            return None
+        pos = [x.arg for x in a.posonlyargs + a.args]
+        defaults = dict(zip(reversed(pos), reversed(a.defaults)))
+        for k, d in zip(a.kwonlyargs, a.kw_defaults):
+            if d is not None:
+                defaults[k.arg] = d
+        names = pos + [x.arg for x in a.kwonlyargs]
+        bind: dict[str, ast.expr] = {}
+        decs = [d.split('.')[-1] for d in callee.decorators()]
+        same_recv = False
+        if callee.cls is not None and 'staticmethod' not in decs:
+            if not isinstance(c.func, ast.Attribute) or not pos:
+                return None
+            if callee.name in ('__init__', '__post_init__', '__new__'):
+                return None
+            rv = self.ev(c.func.value, st.fork())
+            if 'classmethod' not in decs:
+                # the helper runs on the same object under the same name: its `self.attr` stores are this path's
+                same_recv = self.recv is not None and isinstance(c.func.value, ast.Name) \
+                    and c.func.value.id == self.recv == pos[0] and self.recv not in st.env
+            if not same_recv:
+                bind[pos[0]] = rv
+            pos = pos[1:]
+        if len(c.args) > len(pos):
+            return None
+        for p, x in zip(pos, c.args):
+            bind[p] = self.ev(x, st)
+        for k in c.keywords:
+            if k.arg not in names or k.arg in bind:
+                return None
+            bind[k.arg] = self.ev(k.value, st)
+        for p in names:
+            if p not in bind:
+                if p not in defaults:
+                    return None
+                bind[p] = copy.deepcopy(defaults[p])
+        sub = Sym(self.prog, callee, self.depth + 1, parent=self, cap=64)
+        init = SymState(bind, st.facts, st.epoch, st.clob)
+        if same_recv and sub.recv is not None:
+            for k, v in st.env.items():
+                if k.startswith(self.recv + '.'):
+                    init.env[sub.recv + k[len(self.recv):]] = v
+        try:
+            sub.run(init=init)
+        except SymUndecided:
+            return None
+        if len(sub.returns) > 16:
+            return None
+        out = []
+        for rst, rv, _ in sub.returns:
+            new = SymState(st.env, rst.facts, rst.epoch, rst.clob)
+            gone = {_base_id(r) for r in rst.clob} - {_base_id(r) for r in st.clob}
+            if gone:
+                for k, v in list(new.env.items()):
+                    if any(mentions_heap(v, r) for r in gone) or ('.' in k and k.split('.')[0] in gone):
+                        new.env[k] = self._fresh(k, c)
+            if same_recv and sub.recv is not None:
+                for k, v in rst.env.items():
+                    if k.startswith(sub.recv + '.'):
+                        new.env[self.recv + k[len(sub.recv):]] = v
+            elif sub.recv is not None and any(k.startswith(sub.recv + '.') for k in rst.env):
+                # the helper wrote attributes of another object
+                self.clobber(new, {x.id for x in ast.walk(bind.get(callee.params[0], ast.Name(id=sub.recv)))
+                                   if isinstance(x, ast.Name)}, c)
+            out.append((new, rv if rv is not None else ast.Constant(value=None)))
+        return out
+
+    def value_states(self, e: ast.expr | None, st: SymState):
+        """[(state, value)] of evaluating e: one per return path of a summarised helper, else one"""
+        if e is None:
+            return [(st, ast.Constant(value=None))]
+        if isinstance(e, ast.Call):
+            callee = self._summarisable(e)
+            if callee is not None:
+                for x in list(e.args) + [k.value for k in e.keywords]:
+                    self.effects(x, st)
+                r = self._call(callee, e, st)
+                if r is not None:
+                    return r
+        v = self.ev(e, st)
+        self.effects(e, st)
+        return [(st, v)]
+
+    # ---- statements -------------------------------------------------------------------------------------
+    def _heads(self, s: ast.stmt):
+        if isinstance(s, (ast.If, ast.While)):
+            return [s.test]
+        if isinstance(s, (ast.For, ast.AsyncFor)):
+            return [s.iter]
+        if isinstance(s, (ast.With, ast.AsyncWith)):
+            return [i.context_expr for i in s.items]
+        if isinstance(s, ast.Match):
+            return [s.subject]
+        if isinstance(s, (ast.Try, ast.FunctionDef, ast.AsyncFunctionDef, ast.ClassDef)):
+            return []
+        return [s]
+
+    def bind(self, t: ast.expr, v: ast.expr, st: SymState):
+        if isinstance(t, ast.Name):
+            st.env[t.id] = v
+        elif isinstance(t, (ast.Tuple, ast.List)):
+            if any(isinstance(x, ast.Starred) for x in t.elts):
+                for nme in assigned_names(t):
+                    st.env[nme] = self._fresh(nme, t)
+                return
+            same = isinstance(v, (ast.Tuple, ast.List)) and len(v.elts) == len(t.elts) \
+                and not any(isinstance(x, ast.Starred) for x in v.elts)
+            for i, x in enumerate(t.elts):
+                self.bind(x, v.elts[i] if same else
+                          ast.Subscript(value=copy.deepcopy(v), slice=ast.Constant(value=i), ctx=ast.Load()), st)
+        elif isinstance(t, ast.Attribute):
+            if self.recv is not None and isinstance(t.value, ast.Name) and t.value.id == self.recv \
+                    and self.recv not in st.env:
+                st.env[f'{self.recv}.{t.attr}'] = v
+                # reads of the attribute through aliases of the receiver are not tracked: none in scope
+            else:
+                attr = t.attr
+                self.clobber_text(st, lambda x: isinstance(x, ast.Attribute) and x.attr == attr)
+        elif isinstance(t, ast.Subscript):
+            base = norm(self.ev(t.value, st.fork()))
+            self.clobber_text(st, lambda x: isinstance(x, (ast.Attribute, ast.Subscript, ast.Name)) and norm(x) == base)
+            r = chain_root(t)
+            if r is not None and r.id in st.env and isinstance(st.env[r.id], (ast.Tuple, ast.List, ast.Dict, ast.Set)):
+                st.env[r.id] = self._fresh(r.id, t)
+        elif isinstance(t, ast.Starred):
+            self.bind(t.value, self._fresh('starred', t), st)
+
+    def _assigned(self, stmts) -> set[str]:
+        out = set()
+        for s in stmts:
+            for x in walk_no_nested(s):
+                if isinstance(x, ast.Name) and isinstance(x.ctx, (ast.Store, ast.Del)):
+                    out.add(x.id)
+                elif isinstance(x, ast.Attribute) and isinstance(x.ctx, (ast.Store, ast.Del)) \
+                        and isinstance(x.value, ast.Name) and x.value.id == self.recv:
+                    out.add(f'{self.recv}.{x.attr}')
+        return out
+
+    def _havoc(self, st: SymState, names, where):
+        for nme in names:
+            st.env[nme] = self._fresh(nme, where)
+
+    def stmt(self, s: ast.stmt, st: SymState):
+        if self.target is not None:
+            for h in self._heads(s):
+                for n in walk_no_nested(h):
+                    if self.target(n):
+                        self.hits.append(SymHit(n, st.fork(), self))
+                        return []
+        if isinstance(s, (ast.Assign, ast.AnnAssign)):
+            if s.value is None:
+                return [st]
+            outs = []
+            for st2, v in self.value_states(s.value, st):
+                for t in (s.targets if isinstance(s, ast.Assign) else [s.target]):
+                    self.bind(t, copy.deepcopy(v), st2)
+                outs.append(st2)
+            return outs
+        if isinstance(s, ast.AugAssign):
+            v = self.ev(s.value, st)
+            self.effects(s.value, st)
+            t = s.target
+            key = None
+            if isinstance(t, ast.Name):
+                key = t.id
+            elif isinstance(t, ast.Attribute) and isinstance(t.value, ast.Name) and t.value.id == self.recv \
+                    and self.recv not in st.env:
+                key = f'{self.recv}.{t.attr}'
+            if key is None:
+                self.bind(t, self._fresh('aug', s), st)
+                return [st]
+            cur = st.env.get(key)
+            if cur is None:
+                cur = ast.parse(key, mode='eval').body
+            st.env[key] = ast.BinOp(left=copy.deepcopy(cur), op=s.op, right=v)
+            return [st]
+        if isinstance(s, ast.If):
+            test = self.ev(s.test, st)
+            self.effects(s.test, st)
+            outs = []
+            for pol, body in ((True, s.body), (False, s.orelse)):
+                st2 = st.fork()
+                if self.assume(st2, test, pol):
+                    outs += self.block(body, [st2])
+            return outs
+        if isinstance(s, (ast.For, ast.AsyncFor, ast.While)):
+            head = s.iter if not isinstance(s, ast.While) else s.test
+            self.effects(head, st)
+            assigned = self._assigned(s.body)
+            inner = st.fork()
+            self._havoc(inner, assigned, s)
+            if not isinstance(s, ast.While):
+                for nme in assigned_names(s.target):
+                    inner.env[nme] = self._fresh(nme, s)
+            self.block(s.body, [inner])          # returns / raises / hits inside are recorded
+            after = st.fork()
+            self._havoc(after, assigned | (set(assigned_names(s.target)) if not isinstance(s, ast.While) else set()), s)
+            # heap effects of the body: replay them on the state after the loop
+            for b in s.body:
+                for x in walk_no_nested(b):
+                    if isinstance(x, ast.stmt):
+                        self._stmt_effects(x, after)
+            return self.block(s.orelse, [after]) if s.orelse else [after]
+        if isinstance(s, (ast.With, ast.AsyncWith)):
+            for it in s.items:
+                v = self.ev(it.context_expr, st)
+                self.effects(it.context_expr, st)
+                if it.optional_vars is not None:
+                    self.bind(it.optional_vars,
+                              ast.Call(func=ast.Attribute(value=v, attr='__enter__', ctx=ast.Load()), args=[], keywords=[]), st)
+            return self.block(s.body, [st])
+        if isinstance(s, ast.Try) or type(s).__name__ == 'TryStar':
+            outs = self.block(s.body, [st.fork()])
+            outs = self.block(s.orelse, outs) if s.orelse else outs
+            assigned = self._assigned(s.body)
+            for h in s.handlers:
+                hs = st.fork()
+                self._havoc(hs, assigned, h)
+                for b in s.body:
+                    for x in walk_no_nested(b):
+                        if isinstance(x, ast.stmt):
+                            self._stmt_effects(x, hs)
+                if h.name:
+                    hs.env[h.name] = self._fresh(h.name, h)
+                outs += self.block(h.body, [hs])
+            return self.block(s.finalbody, outs) if s.finalbody else outs
+        if isinstance(s, ast.Match):
+            subj = self.ev(s.subject, st)
+            self.effects(s.subject, st)
+            outs = []
+            for c in s.cases:
+                cs = st.fork()
+                for x in ast.walk(c.pattern):
+                    for f in ('name', 'rest'):
+                        if isinstance(getattr(x, f, None), str):
+                            cs.env[getattr(x, f)] = self._fresh(getattr(x, f), c)
+                cs.facts.append((f'match {norm(subj)} case {norm(c.pattern)}', True, subj))
+                if c.guard is not None:
+                    if not self.assume(cs, self.ev(c.guard, cs), True):
+                        continue
+                outs += self.block(c.body, [cs])
+            wild = any(isinstance(c.pattern, ast.MatchAs) and c.pattern.pattern is None and c.guard is None for c in s.cases)
+            return outs if wild else outs + [st]
+        if isinstance(s, ast.Return):
+            for st2, v in self.value_states(s.value, st):
+                self.returns.append((st2, v, s))
+            return []
+        if isinstance(s, ast.Raise):
+            self.raises.append((st, self.ev(s.exc, st.fork()) if s.exc is not None else None, s, self))
+            return []
+        if isinstance(s, ast.Expr):
+            return [st2 for st2, _ in self.value_states(s.value, st)]
+        if isinstance(s, ast.Assert):
+            return [st] if self.assume(st, self.ev(s.test, st), True) else []
+        if isinstance(s, ast.Delete):
+            for t in s.targets:
+                if isinstance(t, ast.Name):
+                    st.env[t.id] = self._fresh(t.id, s)
+                else:
+                    self.bind(t, self._fresh('del', s), st)
+            return [st]
+        if isinstance(s, (ast.Break, ast.Continue)):
+            return []
+        if isinstance(s, (ast.FunctionDef, ast.AsyncFunctionDef, ast.ClassDef)):
+            st.env[s.name] = self._fresh(s.name, s)
+            return [st]
+        return [st]
+
+    def _stmt_effects(self, s: ast.stmt, st: SymState):
+        """heap effects of one simple statement, without following control flow (used for loop / try bodies)"""
+        if isinstance(s, (ast.Assign, ast.AnnAssign, ast.AugAssign)):
+            self.effects(s.value, st)
+            for t in (s.targets if isinstance(s, ast.Assign) else [s.target]):
+                for x in ([t] if not isinstance(t, (ast.Tuple, ast.List)) else list(ast.walk(t))):
+                    if isinstance(x, (ast.Attribute, ast.Subscript)) and isinstance(x.ctx, ast.Store):
+                        if isinstance(x, ast.Attribute) and isinstance(x.value, ast.Name) and x.value.id == self.recv:
+                            continue    # already unknown through _havoc
+                        self.bind(x, self._fresh('loop', s), st)
+        elif isinstance(s, (ast.Expr, ast.Return)):
+            self.effects(s.value, st)
+        elif isinstance(s, (ast.If, ast.While)):
+            self.effects(s.test, st)
+        elif isinstance(s, (ast.For, ast.AsyncFor)):
+            self.effects(s.iter, st)
+        elif isinstance(s, (ast.With, ast.AsyncWith)):
+            for it in s.items:
+                self.effects(it.context_expr, st)
+        elif isinstance(s, ast.Delete):
+            for t in s.targets:
+                if not isinstance(t, ast.Name):
+                    self.bind(t, self._fresh('del', s), st)
+
+
+def sym_show(e: ast.AST | None) -> str:
+    """text of a symbolic value without the internal epoch / loop tags"""
+    import re
+    return re.sub(r'@e?\d+', '', norm(e)) if e is not None else 'None'
